@@ -44,3 +44,14 @@ package controllers
 //@   loop 0: invariant [frame] forall k string :: {REG[k]} old(REG[k]) != nil && old(REG[k]).Cluster != clusterName ==> REG[k] == old(REG[k])
 //@   loop 0: invariant [no_foreign] forall k string :: {REG[k]} REG[k] != old(REG[k]) ==> REG[k] == nil
 //@   loop 0: invariant [removed] forall j int :: {serverNames[j]} 0 <= j && j < idx && old(REG[toLower(serverNames[j])]) != nil && old(REG[toLower(serverNames[j])]).Cluster == clusterName ==> REG[toLower(serverNames[j])] == nil
+
+//@ const DEFAULTFG = features.DefaultMutableFeatureGate
+
+//@ func (*UpstreamClusterController).syncUpstreamCluster props C11
+//@   requires [infos_wf] forall x *clusters.ClusterInfo :: {x.featuregate} x != nil ==> (x.featuregate in fgalive) && x.featuregate != DEFAULTFG
+//@   requires [default] (DEFAULTFG in fgalive) && fgval[DEFAULTFG] == gdefault()
+//@   modifies *
+
+//@ func (*UpstreamClusterController).checkUpstreamServerNameConflict props C11
+//@   modifies nothing
+//@   loop 0: invariant [t] true
